@@ -28,7 +28,9 @@ func (t *Dense) Inner(other Tensor) (retVal interface{}, err error) {
 
 	// we do this check instead of the more common t.Shape()[1] != other.Shape()[0],
 	// basically to ensure a similarity with numpy's dot and vectors.
-	if t.len() != other.DataSize() {
+	// (the number of logical elements, not the length of the storage window: a stepped view of two elements over a
+	// window of five must not pass for a five-vector)
+	if t.Shape().TotalSize() != other.Shape().TotalSize() {
 		return nil, errors.Errorf(shapeMismatch, t.Shape(), other.Shape())
 	}
 
